@@ -677,10 +677,14 @@ func (v *Verifier) genPair(p *Pair, combo []int64, mustWrap map[string]bool) *Ex
 		x.assume(pre, "(= "+t+" "+smtInt(combo[i])+")")
 		x.addSubst(t, smtInt(combo[i]))
 	}
-	var later []*Clause
+	var later, feeds []*Clause
 	for _, a := range p.Assumes {
 		if a.hasTag("post") {
 			later = append(later, a)
+			continue
+		}
+		if a.hasTag("feed") {
+			feeds = append(feeds, a)
 			continue
 		}
 		t, err := x.specBool(env, a.Expr)
@@ -779,6 +783,42 @@ func (v *Verifier) genPair(p *Pair, combo []int64, mustWrap map[string]bool) *Ex
 		return sd.fr.entry, exit, results
 	}
 	lentry, lexit, lres := run(ls)
+	// assume[feed] r.<param> == <expression over the left side's exit state>: the right side's
+	// argument IS that value (e.g. the slice the left side returned), not merely equal to it
+	for _, a := range feeds {
+		be, ok := a.Expr.(*ast.BinaryExpr)
+		var pname string
+		if ok && be.Op == token.EQL {
+			if se, ok2 := be.X.(*ast.SelectorExpr); ok2 {
+				if id, ok3 := se.X.(*ast.Ident); ok3 && id.Name == "r" {
+					pname = se.Sel.Name
+				}
+			}
+		}
+		if pname == "" || !p.Sequential {
+			x.bindingError(fmt.Sprintf("pair assume[feed] %q", a.Src), "expected r.<parameter> == <expression> in a sequential pair", a.File, a.Line)
+			continue
+		}
+		envF := &Env{x: x, sides: map[string]*Env{"l": ls.env(x, lexit, lentry, lres)}, vars: map[string]Val{}, st: lexit, old: lexit, post: true}
+		val, err := x.spec(envF, be.Y)
+		if err != nil {
+			x.bindingError(fmt.Sprintf("pair assume[feed] %q", a.Src), err.Error(), a.File, a.Line)
+			continue
+		}
+		found := false
+		for i, prm := range rs.fn.Params {
+			if prm.Name() == pname && i < len(rs.params) && len(val.L) == len(rs.params[i].L) {
+				val.Typ = rs.params[i].Typ
+				rs.params[i] = val
+				rs.fr.params[i] = val
+				rs.fr.vals[prm] = val
+				found = true
+			}
+		}
+		if !found {
+			x.bindingError(fmt.Sprintf("pair assume[feed] %q", a.Src), "no such parameter on the right side (or shape mismatch)", a.File, a.Line)
+		}
+	}
 	if p.Sequential {
 		// composition: the right side starts in the left side's exit state; its pre-condition is
 		// an obligation there, not a premise
